@@ -26,6 +26,21 @@ CLAIMS = {
     ),
 }
 
+TECH = ("contract-based deductive verification: own VC generator (ast -> symbolic execution -> z3/cvc5), "
+        "counter-models and bounded native search replayed on the real code")
+
+CLAIMS["C34"] = dict(
+    category="proof",
+    text="UHeap (push, pop, pop_with_key, peek, _swim_up, _sink_down, _swap, __init__), BitVector (__init__, add, "
+         "__contains__, &, &=, |, |=) and OrderedSet (__init__, len, in, add, discard, iteration, reversed, pop) are "
+         "verified function by function against whole-view contracts: heap order + index table with the abstract "
+         "map item->key and the inductive lemma root-is-min; set-of-naturals view of the bit blocks; ghost ring "
+         "order of the doubly linked cells. Recursion and loops are unbounded (own contract / invariants). "
+         "BitVector.__iter__/__len__/__bool__ and the MutableSet mix-ins are not under contract yet.",
+    design_ref="DESIGN.md section 2, C34",
+    technique=TECH,
+)
+
 NA = {
     "C22": "convergence of sample frequencies is a statistical limit, not a pre/post-condition of any call; a "
            "Hoeffding test would be statistical testing, a different technique family",
